@@ -2,7 +2,9 @@ package rewriter
 
 import (
 	"go/ast"
+	"go/types"
 	"log"
+	"strings"
 
 	"github.com/goghcrow/go-ast-matcher"
 	"github.com/goghcrow/go-imports"
@@ -254,13 +256,47 @@ func (o *optimizer) etaReduction() {
 		return true
 	}
 
+	// f must denote the same function value whenever the closure would have been called:
+	// a declared function, or a method of a generated iterator (never reassigned).
+	// builtin, conversion, func var, method value of user var (receiver bound early) are not
+	var stable func(ctx astmatcher.Ctx, fun ast.Expr, instantiated bool) bool
+	stable = func(ctx astmatcher.Ctx, fun ast.Expr, instantiated bool) bool {
+		declared := func(id *ast.Ident) *types.Func {
+			f, _ := ctx.ObjectOf(id).(*types.Func)
+			if f != nil && !instantiated && f.Type().(*types.Signature).TypeParams().Len() > 0 {
+				return nil // generic func needs explicit instantiation as value
+			}
+			return f
+		}
+		switch fun := fun.(type) {
+		case *ast.IndexExpr:
+			return stable(ctx, fun.X, true)
+		case *ast.IndexListExpr:
+			return stable(ctx, fun.X, true)
+		case *ast.Ident:
+			return declared(fun) != nil
+		case *ast.SelectorExpr:
+			f := declared(fun.Sel)
+			if f == nil {
+				return false
+			}
+			if f.Type().(*types.Signature).Recv() == nil {
+				return true // pkg.Fun
+			}
+			x, _ := fun.X.(*ast.Ident)
+			return x != nil && strings.HasPrefix(x.Name, cstIterVar)
+		}
+		return false
+	}
+
 	o.m.Match(
 		pattern,
 		func(c *astmatcher.Cursor, ctx astmatcher.Ctx) {
 			params := ctx.Binds["params"].(*ast.FieldList).List
 			args := ctx.Binds["args"].(ExprsNode)
-			if matched(ctx, params, args) {
-				c.Replace(ctx.Binds["fun"])
+			fun := ctx.Binds["fun"].(ast.Expr)
+			if matched(ctx, params, args) && stable(ctx, fun, false) {
+				c.Replace(fun)
 			}
 		},
 	)
